@@ -1,4 +1,5 @@
 mod engine;
+mod isolate;
 mod models;
 mod props;
 mod report;
@@ -85,6 +86,13 @@ fn main() {
                     std::process::exit(1);
                 }
             }
+        }
+        "worker" => {
+            let prop = args.get(2).cloned().unwrap_or_else(|| usage());
+            let grid = args.get(3).cloned().unwrap_or_else(|| usage());
+            let from: u64 = args.get(4).and_then(|x| x.parse().ok()).unwrap_or_else(|| usage());
+            let to: u64 = args.get(5).and_then(|x| x.parse().ok()).unwrap_or_else(|| usage());
+            props::worker(&prop, &grid, from, to);
         }
         "selfcheck-suite" => {
             let cases = scopes::load_suite().unwrap();
